@@ -342,12 +342,24 @@ def tgt_desc(rng):
     return d
 
 
+# the names SPC-4 / SPC-5 give the two descriptor types used here (a descriptor type may be given by name instead of by code)
+TGT_NAME = {4: "Identification descriptor target descriptor", 5: "Identification Descriptor CSCD descriptor"}
+SEG_NAME = "block -> block"
+
+
+def _named(rng, descs, name):
+    for d in descs:
+        if rng.random() < 0.3:
+            d["descriptor_type_code"] = name
+    return descs
+
+
 def g_xcopy4(rng, cfg):
     kw = {}
     nt = 0
     if rng.random() < 0.7:
         nt = rng.randrange(4)
-        kw["target_descriptor_list"] = [tgt_desc(rng) for _ in range(nt)]
+        kw["target_descriptor_list"] = _named(rng, [tgt_desc(rng) for _ in range(nt)], TGT_NAME[4])
     if rng.random() < 0.7:
         segs = []
         for _ in range(rng.randrange(3)):
@@ -358,7 +370,7 @@ def g_xcopy4(rng, cfg):
                 s["source_target_descriptor_id"] = rng.randrange(nt)
                 s["destination_target_descriptor_id"] = rng.randrange(nt)
             segs.append(s)
-        kw["segment_descriptor_list"] = segs
+        kw["segment_descriptor_list"] = _named(rng, segs, SEG_NAME)
     if rng.random() < 0.4:
         kw["list_identifier"] = rng.randrange(256)
     if rng.random() < 0.4:
@@ -382,7 +394,7 @@ def g_xcopy5(rng, cfg):
     nt = 0
     if rng.random() < 0.7:
         nt = rng.randrange(4)
-        kw["cscd_descriptor_list"] = [_spc5(tgt_desc(rng)) for _ in range(nt)]
+        kw["cscd_descriptor_list"] = _named(rng, [_spc5(tgt_desc(rng)) for _ in range(nt)], TGT_NAME[5])
     if rng.random() < 0.7:
         segs = []
         for _ in range(rng.randrange(3)):
@@ -391,7 +403,7 @@ def g_xcopy5(rng, cfg):
                 s["source_cscd_descriptor_id"] = rng.randrange(nt)
                 s["destination_cscd_descriptor_id"] = rng.randrange(nt)
             segs.append(s)
-        kw["segment_descriptor_list"] = segs
+        kw["segment_descriptor_list"] = _named(rng, segs, SEG_NAME)
     if rng.random() < 0.3:
         kw["inline_data"] = {"$b": [rng.randrange(1000), rng.choice([0, 1, 4, 6, 9])]}
     if rng.random() < 0.4:
